@@ -429,7 +429,7 @@ CHECKS = {
     "C07": {
         "level": "exploration",
         "rule": ("plans on one caching client under the fake clock: keys with server expiry none / missing / 1 ms..20 s, 1-3 tasks issuing DoCache and DoMultiCache "
-                 "(per-command client TTLs 1 ms..10 s, a quarter of the plans with static TTL), time advanced only by explicit jumps of 1 ms..3 s between the reads, "
+                 "(per-command client TTLs 1 ms..10 s, a quarter of the plans with static TTL), time advanced only by explicit jumps of 1 ms..3 s (some of them not a whole number of milliseconds, so that a key is also read in its last millisecond: server PTTL 0) between the reads, "
                  "optionally a slow server so that request start and reply arrival differ by up to seconds; oracle: the CachePXAT of a filling reply lies in "
                  "min(request start + ttl, reply arrival + server PTTL) evaluated over the interval in which the request may have started (1 ms rounding), "
                  "every later hit on that entry reports the same CachePXAT, no call that started at or after it is served the entry as a hit, and "
@@ -437,7 +437,7 @@ CHECKS = {
         "parts": [
             {"module": "rueidis", "scenario": "csc-ttl", "quick": 8000, "thorough": 600000},
         ],
-        "expected_probes": ["hit-judged", "hit-within-5ms-of-expiry"],
+        "expected_probes": ["hit-judged", "hit-within-5ms-of-expiry", "server-pttl-zero"],
         "components": {"real": REAL, "stubs": STUBS},
         "assumptions": [
             "a value delivered to a caller that was already waiting on the in-flight request is not judged as a stored hit even though it carries the cache mark",
